@@ -567,9 +567,18 @@ let run_hand (text : string) : string =
   let nodes = match M.iter_all n with M.Ok l -> l | M.Err _ -> [] | M.Panic p -> raise (Model_panic (int_of_n p)) in
   let ops = String.concat "," (List.map (fun x -> op_text (M.nop x)) nodes) in
   let strs r = match r with M.Ok l -> String.concat "," (List.map hex_of_str l) | _ -> "?" in
-  Printf.sprintf "same=1 ro=%s rolog[%s] mut=%s vars{%s} mutlog[%s] nodes[%s] ops[%s] ids[%s] vids[%s] show=%s"
+  (* all 24 tree-level entry points on this tree, through the wrappers TRANSLATED from the source (C12_node_views) *)
+  let views =
+    List.concat_map
+      (fun m ->
+        List.map
+          (fun t -> let (r, _), _ = M.run_node_entry_gen oracle m t n ctx [] in outcome_text value_text r)
+          [ M.XValue; M.XString; M.XInt; M.XFloat; M.XNumber; M.XBoolean; M.XTuple; M.XEmpty ])
+      [ M.MFree; M.MRo; M.MMut ] in
+  Printf.sprintf "same=1 ro=%s rolog[%s] mut=%s vars{%s} mutlog[%s] nodes[%s] ops[%s] ids[%s] vids[%s] show=%s views[%s]"
     (outcome_text value_text ro) (logtext rolog) (outcome_text value_text mt) (String.concat "," vars) (logtext mtlog) ops ops
     (strs (M.iter_identifiers n)) (strs (M.iter_variable_identifiers n)) (hex_of_str (M.node_fmt fmt_oracle n))
+    (String.concat "|" views)
 
 (* 2^64 - 1 as a Coq N: n_of_int cannot take it on a 63-bit OCaml int *)
 let usize_max : M.n = M.Npos (pos_of_u64 (-1L))
